@@ -254,6 +254,17 @@ def c09_order(r2: int, r3: int, r4: int, g2: bool, g3: bool, g4: bool, miss: int
     return fin(ok)
 
 
+def c09_strict_fresh_collection_of_used_rules() -> bool:
+    """Witness form for known finding c09-output-flag-survives-in-rule-objects: rule objects that were part of a
+    collection with a non-generating correlation rule, put into a NEW collection without it, emit their queries."""
+    docs = make_docs(3, [[], [], [0]], [False] * 5, -1)
+    full = SigmaCollection.from_dicts(docs)
+    plain = SigmaCollection([r for r in full.rules if not isinstance(r, SigmaCorrelationRule)])
+    got = sorted(TextQueryTestBackend().convert(plain))
+    want = sorted(TextQueryTestBackend().convert(SigmaCollection.from_dicts(docs[:2])))
+    return got == want
+
+
 def c09_concrete_intref() -> bool:
     """Witness: documents 0..3, document 3 refers to rule 1 and to the integer 1; orders (0,1,2,3) and (1,0,2,3)."""
     return check(4, [[], [], [], [1]], [False] * 5, 3, (0, 1, 2, 3), 0, 0) and check(4, [[], [], [], [1]], [False] * 5, 3, (1, 0, 3, 2), 0, 0)
